@@ -2,16 +2,17 @@
     are instantiated by a table of the values the real Go functions returned for the strings of
     the case.  No proofs. *)
 From Coq Require Import ZArith NArith List Bool String.
-From Verif Require Import AdmitTotal.Base AdmitTotal.Model.
+From Verif Require Import AdmitTotal.Base AdmitTotal.Model AdmitTotal.State.
 Import ListNotations.
 
 Record orow := mkRow {
+  o_b58dec : str;
   o_upper : str; o_addr : option str; o_b58 : option (nat * bool); o_big : option Z;
   o_allowed : bool; o_list : bool; o_rpcn : nat; o_b64 : bool; o_w : bool;
   o_ccp : bool; o_cca : bool; o_cch : bool }.
 
 Definition default_row (x : str) : orow :=
-  mkRow x None None None false false 1 false false false false false.
+  mkRow [] x None None None false false 1 false false false false false.
 
 Definition look (tbl : list (str * orow)) (x : str) : orow :=
   match assoc x tbl with Some r => r | None => default_row x end.
@@ -42,11 +43,48 @@ Fixpoint confs_eqb (a b : list (str * (bool * list str))) : bool :=
       end
   end.
 
+(** observation of a successfully executed aergo.system transaction *)
+Record runobs := mkRunObs {
+  ro_results : list (str * str);            (* vote-result lists before *)
+  ro_jmarshal : str;                        (* json.Marshal(Args[1:]) *)
+  ro_junm : list (str * list str);          (* json.Unmarshal of the candidate bytes seen *)
+  ro_post_staking : str;
+  ro_post_votes : list (str * str);         (* issue key -> sender's raw vote after *)
+  ro_post_results : list (str * str) }.     (* issue key -> vote-result list after *)
+
+(** the stored list is sorted by Go (map iteration + sort): compare entries as a set *)
+Definition same_entries (a b : str) : bool :=
+  match de_list (List.length a) a, de_list (List.length b) b with
+  | Ok ea, Ok eb => Nat.eqb (List.length ea) (List.length eb) && forallb (fun e => mem_str e eb) ea
+  | _, _ => false
+  end.
+
+Definition lookup_s (k : str) (l : list (str * str)) : str := match assoc k l with Some r => r | None => [] end.
+
+Definition run_ok (up : str -> str) (pb : str -> option Z) (b58d : str -> str) (t : tx) (sv : sysview) (ro : runobs) : bool :=
+  match tx_ci t with
+  | Some ci =>
+      match system_validate up pb (Some ci) (tx_amount t) sv with
+      | Ok cx =>
+          match system_run up b58d (fun _ => ro_jmarshal ro) (fun c => assoc c (ro_junm ro)) ci cx (tx_amount t) sv
+                           (mkRun (ro_results ro)) with
+          | Ok u =>
+              (match u_staking u with Some r => str_eqb r (ro_post_staking ro) | None => true end)
+              && forallb (fun kv => str_eqb (snd kv) (lookup_s (fst kv) (ro_post_votes ro))) (u_votes u)
+              && forallb (fun kv => same_entries (snd kv) (lookup_s (fst kv) (ro_post_results ro))) (u_results u)
+          | _ => false
+          end
+      | _ => false
+      end
+  | None => false
+  end.
+
 Record ccase := mkCase {
   c_env : env; c_tx : tx; c_state : state;
   c_tbl : list (str * orow); c_enc : list (str * str);
   c_vtypes : cls; c_vstate : cls; c_exec : cls;
-  c_post : option (str * list (str * (bool * list str))) }.   (* enterprise admins / confs after exec *)
+  c_post : option (str * list (str * (bool * list str)));    (* enterprise admins / confs after exec *)
+  c_run : option runobs }.                                   (* system: records before / after cmd.run *)
 
 Definition case_results (c : ccase) :=
   let t := c_tbl c in
@@ -72,6 +110,11 @@ Definition case_results (c : ccase) :=
 Definition case_ok (c : ccase) : bool :=
   let '(vt, vs, ex, ee, wf) := case_results c in
   wf && cls_match vt (c_vtypes c) && cls_match vs (c_vstate c) && cls_match ex (c_exec c)
+  && match c_run c with
+     | Some ro => run_ok (fun x => o_upper (look (c_tbl c) x)) (fun x => o_big (look (c_tbl c) x))
+                         (fun x => o_b58dec (look (c_tbl c) x)) (c_tx c) (st_sys (c_state c)) ro
+     | None => true
+     end
   && match c_post c, ee with
      | Some (admins, confs), Ok ev' =>
          str_eqb admins (ev_admins ev') && confs_eqb confs (ev_confs ev') && confs_eqb (ev_confs ev') confs
